@@ -43,6 +43,7 @@ import (
 	"sort"
 	"strings"
 	"sync"
+	"sync/atomic"
 	"testing"
 	"time"
 
@@ -53,6 +54,7 @@ import (
 	"github.com/kardiachain/go-kardia/kai/kaidb/memorydb"
 	"github.com/kardiachain/go-kardia/kai/rawdb"
 	"github.com/kardiachain/go-kardia/kai/state/cstate"
+	auto "github.com/kardiachain/go-kardia/lib/autofile"
 	"github.com/kardiachain/go-kardia/lib/common"
 	"github.com/kardiachain/go-kardia/lib/crypto"
 	"github.com/kardiachain/go-kardia/lib/log"
@@ -204,6 +206,7 @@ type crWrite struct {
 	nacted  int // number of own messages acted upon before this entry
 	walMsgs int // number of WAL messages (records) covered by walLen
 	aux     int // block: 1 if the saved block carries transactions; head: 1 if the head pointer names a block never saved
+	rot     bool // WAL entry: the head was rotated (flushed, fsynced, renamed to wal.NNN); walLen is the cut
 }
 
 type crSig struct {
@@ -241,8 +244,9 @@ type crRec struct {
 	sigs   []crSig
 	acted  []crActed
 	recs   []crWalRec
-	walBuf int // bytes written to the WAL so far
+	walBuf int // bytes written to the WAL so far (logical offset over all files of the group)
 	walDur int // durable prefix
+	rotBase int // bytes in the rotated files the life started on
 	notify chan struct{}
 	frozen bool
 	saved  map[common.Hash]bool   // hashes with a hash->height entry (blocks saved with WriteBlock)
@@ -562,6 +566,11 @@ type crWAL struct {
 	path    string
 	pending func() int // transactions pending in the pool (what a proposal block built now carries)
 	raw     bool       // true: do not record (after the code replaced the WAL itself)
+	cs      *ConsensusState
+	raced   int32      // atomic; 1: a propose/prevote/precommit timeout was handled while own messages were still queued (slow machine)
+	limit   int64      // head size limit of the group (0: the default, never reached)
+	ticking int32      // atomic; 1: the group's ticker may fire (not while ConsensusState.OnStart runs: its first tick comes groupCheckDuration after the WAL was started, OnStart takes milliseconds)
+	rotBase int        // bytes in the rotated files wal.000 ..
 }
 
 func crWalMsgKind(m WALMessage) string {
@@ -627,7 +636,7 @@ func crWalMsgTok(m WALMessage) string {
 	return "step"
 }
 
-func (w *crWAL) size() int {
+func (w *crWAL) headSize() int {
 	st, err := os.Stat(w.path)
 	if err != nil {
 		return 0
@@ -635,8 +644,46 @@ func (w *crWAL) size() int {
 	return int(st.Size())
 }
 
+// size: logical length of the WAL on disk = rotated files + head
+func (w *crWAL) size() int { return w.rotBase + w.headSize() }
+
+// checkRotate is the group's ticker firing at this instant: the REAL checkHeadSizeLimit runs
+// (head file size >= limit => RotateFile: flush, fsync, close, rename to wal.NNN; no new head is
+// created).  A rotation is one durable write of the ordered log: it makes everything handed to
+// the WAL so far durable and leaves the group without a head file.
+func (w *crWAL) checkRotate() {
+	if w.limit <= 0 || atomic.LoadInt32(&w.ticking) == 0 {
+		return
+	}
+	g := w.inner.group
+	before := g.MaxIndex()
+	g.VerifC05CheckHeadSizeLimit()
+	if g.MaxIndex() == before {
+		return
+	}
+	r := w.rec
+	r.mu.Lock()
+	end := r.walBuf
+	w.rotBase = end
+	if !r.frozen {
+		r.walDur = end
+		r.log = append(r.log, crWrite{wal: true, rot: true, walLen: end, walBuf: end, kind: "wal:rotate", nsigs: len(r.sigs), nacted: len(r.acted), walMsgs: len(r.recs),
+			desc: fmt.Sprintf("WAL head rotated at byte %d (file index %d)", end, before)})
+	}
+	r.mu.Unlock()
+	r.ping()
+}
+
 func (w *crWAL) note(m WALMessage, sync bool) {
 	r := w.rec
+	if ti, ok := m.(timeoutInfo); ok && ti.Step >= cstypes.RoundStepPropose && w.cs != nil {
+		// this runs in the receive routine, right after its select took the timeout off the ticker:
+		// own messages (proposal, parts, votes) are queued synchronously by the routine itself, so a
+		// non-empty queue here means that the timeout overtook them only because the machine is slow
+		if len(w.cs.internalMsgQueue) > 0 {
+			atomic.StoreInt32(&w.raced, 1)
+		}
+	}
 	// the record's end offset = bytes in the file + bytes still in the group's buffer; what is
 	// DURABLE is decided by the calls of the code under test alone
 	end := w.size() + w.inner.group.Buffered()
@@ -688,6 +735,7 @@ func (w *crWAL) Write(m WALMessage) error {
 	err := w.inner.Write(m)
 	if err == nil {
 		w.note(m, false)
+		w.checkRotate()
 	}
 	return err
 }
@@ -695,6 +743,7 @@ func (w *crWAL) WriteSync(m WALMessage) error {
 	err := w.inner.WriteSync(m)
 	if err == nil {
 		w.note(m, true)
+		w.checkRotate()
 	}
 	return err
 }
@@ -702,6 +751,7 @@ func (w *crWAL) FlushAndSync() error {
 	err := w.inner.FlushAndSync()
 	if err == nil {
 		w.note(nil, true)
+		w.checkRotate()
 	}
 	return err
 }
@@ -713,29 +763,120 @@ func (w *crWAL) Stop() error  { return w.inner.Stop() }
 func (w *crWAL) Wait()        { w.inner.Wait() }
 
 // crOpenWAL opens (as ConsensusState.OpenWAL does) the WAL file of cfg and wraps it.
-func crOpenWAL(cfg *configs.ConsensusConfig, rec *crRec, logger log.Logger) (*crWAL, error) {
-	inner, err := NewWAL(cfg.WalFile())
+func crOpenWAL(cfg *configs.ConsensusConfig, rec *crRec, logger log.Logger, limit int64) (*crWAL, error) {
+	var opts []func(*auto.Group)
+	if limit > 0 {
+		// the group's own ticker never fires: the harness decides when checkHeadSizeLimit runs (checkRotate)
+		opts = append(opts, auto.GroupHeadSizeLimit(limit), auto.GroupCheckDuration(time.Hour))
+	}
+	inner, err := NewWAL(cfg.WalFile(), opts...)
 	if err != nil {
 		return nil, err
 	}
 	inner.SetLogger(logger)
 	inner.SetFlushInterval(time.Hour) // no periodic fsync: durability comes from the code's own calls only
+	w := &crWAL{inner: inner, rec: rec, path: cfg.WalFile(), limit: limit, rotBase: rec.rotBase}
+	headEmpty := w.headSize() == 0
 	if err := inner.Start(); err != nil {
 		return nil, err
 	}
-	w := &crWAL{inner: inner, rec: rec, path: cfg.WalFile()}
-	// BaseWAL.OnStart fsyncs #ENDHEIGHT 0 into an empty file
+	// BaseWAL.OnStart fsyncs #ENDHEIGHT 0 into an empty head: the first boot, and every restart on a
+	// group whose head was rotated away and not written again before the crash
 	sz := w.size()
 	rec.mu.Lock()
 	if sz > rec.walDur {
-		if rec.walDur == 0 && len(rec.recs) == 0 {
+		if headEmpty {
 			rec.recs = append(rec.recs, crWalRec{end: sz, kind: "eh:0", tok: "eh:0"})
-			rec.log = append(rec.log, crWrite{wal: true, walLen: sz, walBuf: sz, kind: "wal:eh:0", desc: fmt.Sprintf("WAL fsync up to byte %d (eh:0, BaseWAL.OnStart)", sz), nsigs: len(rec.sigs), nacted: len(rec.acted), walMsgs: 1})
+			rec.log = append(rec.log, crWrite{wal: true, walLen: sz, walBuf: sz, kind: "wal:eh:0", desc: fmt.Sprintf("WAL fsync up to byte %d (eh:0, BaseWAL.OnStart)", sz), nsigs: len(rec.sigs), nacted: len(rec.acted), walMsgs: len(rec.recs)})
 		}
 		rec.walDur, rec.walBuf = sz, sz
 	}
 	rec.mu.Unlock()
 	return w, nil
+}
+
+// ---------------------------------------------------------------------------------------------
+// logical timeouts: progress of the node under test never depends on real time
+//
+// crTicker wraps the REAL timeoutTicker (which keeps deciding which scheduled timeout supersedes
+// which).  Every timeout is scheduled with duration 0, so the real ticker fires it at once; the
+// relay then HOLDS the fired timeout until the node is quiescent - no own message queued, no
+// message being handled - and only then hands it to the receive routine.  For a single validator
+// without peers this is exactly what a real timeout does on a machine that is fast enough (own
+// messages are queued synchronously by the receive routine itself; nothing else can arrive while
+// it waits), and it cannot be overtaken by a slow machine: a timeout is never offered to the
+// routine's select together with queued own messages.  A timeout released while the routine is
+// between taking a message off the queue and handling it is seen by the select only after that
+// message was handled, when it is either stale (ignored by handleTimeout) or still due.
+type crTicker struct {
+	inner    TimeoutTicker
+	cs       *ConsensusState
+	out      chan timeoutInfo
+	quit     chan struct{}
+	once     sync.Once
+	held     int32  // atomic: a fired timeout waits in the relay
+	nsched   int64  // atomic: timeouts scheduled
+	gated    bool   // first life: the NewHeight timeout of height h is held until release(h)
+	released uint64 // atomic
+}
+
+func crNewTicker(cs *ConsensusState, gated bool) *crTicker {
+	return &crTicker{inner: cs.timeoutTicker, cs: cs, out: make(chan timeoutInfo, tickTockBufferSize), quit: make(chan struct{}), gated: gated}
+}
+func (t *crTicker) Start() error {
+	if err := t.inner.Start(); err != nil {
+		return err
+	}
+	go t.relay()
+	return nil
+}
+func (t *crTicker) Stop() error {
+	t.once.Do(func() { close(t.quit) })
+	return t.inner.Stop()
+}
+func (t *crTicker) Chan() <-chan timeoutInfo { return t.out }
+func (t *crTicker) ScheduleTimeout(ti timeoutInfo) {
+	ti.Duration = 0
+	atomic.AddInt64(&t.nsched, 1)
+	t.inner.ScheduleTimeout(ti)
+}
+func (t *crTicker) SetLogger(l log.Logger) { t.inner.SetLogger(l) }
+func (t *crTicker) release(h uint64)       { atomic.StoreUint64(&t.released, h) }
+
+// quiescent: nothing queued for the receive routine and it is not inside handleMsg/handleTimeout
+func (t *crTicker) quiescent() bool {
+	if len(t.cs.internalMsgQueue) > 0 || len(t.cs.peerMsgQueue) > 0 {
+		return false
+	}
+	if !t.cs.mtx.TryLock() {
+		return false
+	}
+	t.cs.mtx.Unlock()
+	return true
+}
+
+func (t *crTicker) relay() {
+	for {
+		select {
+		case ti := <-t.inner.Chan():
+			atomic.StoreInt32(&t.held, 1)
+			for !(t.quiescent() && (!t.gated || ti.Step != cstypes.RoundStepNewHeight || ti.Height <= atomic.LoadUint64(&t.released))) {
+				select {
+				case <-t.quit:
+					return
+				case <-time.After(100 * time.Microsecond):
+				}
+			}
+			select {
+			case t.out <- ti:
+			case <-t.quit:
+				return
+			}
+			atomic.StoreInt32(&t.held, 0)
+		case <-t.quit:
+			return
+		}
+	}
 }
 
 // ---------------------------------------------------------------------------------------------
@@ -773,12 +914,14 @@ type crScenario struct {
 	snapshot bool // SnapshotLimit > 0
 	heights  int
 	txAt     map[uint64]int // txs submitted while the node is at this height
+	rotLimit int64          // > 0: WAL head size limit (the head is rotated at the first check that finds it this large)
 }
 
 type crEnv struct {
 	key     *types.DefaultPrivValidator
 	userKey [2]*types.DefaultPrivValidator
 	sc      crScenario
+	gated   bool // the next node started runs height by height (crTicker.release): the first life
 }
 
 func crNewEnv(sc crScenario) *crEnv {
@@ -840,6 +983,7 @@ type crNode struct {
 	cs        *ConsensusState
 	eb        *types.EventBus
 	wal       *crWAL
+	tk        *crTicker
 	ccfg      *configs.ConsensusConfig
 	state0    cstate.LatestBlockState // state the node was started from
 	stage     string                  // last assembly stage reached
@@ -868,7 +1012,7 @@ func crGuard(f func()) (panicked string) {
 
 // crStartNode assembles and starts a node on (mem, walBytes) — a fresh node when both are empty.
 // Every stage runs guarded; nd.failed != "" tells that the start did not succeed, nd.stage where.
-func crStartNode(env *crEnv, mem *memorydb.Database, walBytes []byte, rec *crRec) *crNode {
+func crStartNode(env *crEnv, mem *memorydb.Database, walBytes []byte, rots []int, rec *crRec) *crNode {
 	nd := &crNode{env: env, rec: rec, hh0: -1}
 	if crTmpRoot == "" {
 		base := ""
@@ -895,17 +1039,31 @@ func crStartNode(env *crEnv, mem *memorydb.Database, walBytes []byte, rec *crRec
 	}
 	ccfg := configs.TestConsensusConfig()
 	ccfg.RootDir = dir
-	ccfg.TimeoutPropose = 2 * time.Second // fires only when the proposal really cannot complete (not under machine load)
+	ccfg.TimeoutPropose = 2 * time.Second // not waited for in real time: see crTicker
 	ccfg.TimeoutCommit = 2 * time.Millisecond
 	nd.ccfg = ccfg
-	if walBytes != nil {
+	if walBytes != nil || len(rots) > 0 {
+		// the WAL group of the image: wal.000 .. wal.(n-1) cut at the rotation offsets, and the head;
+		// no head file when nothing was written after the last rotation (RotateFile creates none)
 		os.MkdirAll(filepath.Dir(ccfg.WalFile()), 0o700)
-		if err := os.WriteFile(ccfg.WalFile(), walBytes, 0o600); err != nil {
-			panic(err)
+		prev := 0
+		for i, off := range rots {
+			if err := os.WriteFile(fmt.Sprintf("%s.%03d", ccfg.WalFile(), i), walBytes[prev:off], 0o600); err != nil {
+				panic(err)
+			}
+			prev = off
 		}
-		rec.walDur, rec.walBuf = len(walBytes), len(walBytes)
+		if prev < len(walBytes) || len(rots) == 0 {
+			if err := os.WriteFile(ccfg.WalFile(), walBytes[prev:], 0o600); err != nil {
+				panic(err)
+			}
+		}
+		rec.walDur, rec.walBuf, rec.rotBase = len(walBytes), len(walBytes), prev
 	}
-	logger := log.New()
+	// log records carry the generation of the node that wrote them: a record of a node that was
+	// killed earlier (its goroutines may linger on a slow machine) is never attributed to this one
+	gen := atomic.AddInt64(&crNodeGen, 1)
+	logger := log.New("c05node", gen)
 	gs := env.genesis()
 	step := func(name string, f func() error) bool {
 		nd.stage = name
@@ -971,6 +1129,8 @@ func crStartNode(env *crEnv, mem *memorydb.Database, walBytes []byte, rec *crRec
 		if p != "" {
 			panic(p)
 		}
+		nd.tk = crNewTicker(nd.cs, env.gated)
+		nd.cs.timeoutTicker = nd.tk
 		nd.cs.SetPrivValidator(&crPV{DefaultPrivValidator: env.key, rec: rec})
 		nd.eb = types.NewEventBus()
 		nd.eb.SetLogger(logger)
@@ -980,7 +1140,7 @@ func crStartNode(env *crEnv, mem *memorydb.Database, walBytes []byte, rec *crRec
 		nd.cs.SetEventBus(nd.eb)
 		return nil
 	}) && step("OpenWAL", func() error {
-		w, err := crOpenWAL(ccfg, rec, logger)
+		w, err := crOpenWAL(ccfg, rec, logger, env.sc.rotLimit)
 		if err != nil {
 			return err
 		}
@@ -988,6 +1148,7 @@ func crStartNode(env *crEnv, mem *memorydb.Database, walBytes []byte, rec *crRec
 			crGuard(func() { n = nd.txPool.PendingSize() })
 			return n
 		}
+		w.cs = nd.cs
 		nd.wal = w
 		nd.cs.wal = w
 		return nil
@@ -995,6 +1156,7 @@ func crStartNode(env *crEnv, mem *memorydb.Database, walBytes []byte, rec *crRec
 		crLogs.take()
 		err := nd.cs.Start()
 		nd.startLogs = crLogs.take()
+		atomic.StoreInt32(&nd.wal.ticking, 1)
 		return err
 	})
 	if ok {
@@ -1013,9 +1175,11 @@ func (nd *crNode) kill() {
 		if nd.cs != nil && nd.cs.IsRunning() {
 			nd.cs.Stop()
 			if nd.stage == "running" { // the receive routine exists only after a successful OnStart
+				// event-based: returns as soon as the routine has exited; the bound only protects
+				// against a routine that hangs for good
 				select {
 				case <-nd.cs.done:
-				case <-time.After(2 * time.Second):
+				case <-time.After(90 * time.Second):
 				}
 			}
 		}
@@ -1044,9 +1208,21 @@ func (nd *crNode) kill() {
 	})
 }
 
+// walBytes: the logical WAL = the files of the group in index order, the head last
 func (nd *crNode) walBytes() []byte {
+	var all []byte
+	for i := 0; ; i++ {
+		b, err := os.ReadFile(fmt.Sprintf("%s.%03d", nd.ccfg.WalFile(), i))
+		if err != nil {
+			break
+		}
+		all = append(all, b...)
+	}
 	b, _ := os.ReadFile(nd.ccfg.WalFile())
-	return b
+	if all == nil {
+		return b
+	}
+	return append(all, b...)
 }
 
 // cleanup: node directories live under one parent that is removed when the test ends (a WAL group
@@ -1087,6 +1263,8 @@ type crLogCap struct {
 
 var crLogs = &crLogCap{}
 
+var crNodeGen int64 // generation of the node whose log records are captured
+
 func (c *crLogCap) handler() log.Handler {
 	return log.FuncHandler(func(r *log.Record) error {
 		var key string
@@ -1119,6 +1297,11 @@ func (c *crLogCap) handler() log.Handler {
 		for i := 0; i+1 < len(r.Ctx); i += 2 {
 			if k, ok := r.Ctx[i].(string); ok && k == "err" {
 				e = fmt.Sprint(r.Ctx[i+1])
+			}
+			if k, ok := r.Ctx[i].(string); ok && k == "c05node" {
+				if g, ok := r.Ctx[i+1].(int64); ok && g != atomic.LoadInt64(&crNodeGen) {
+					return nil // a node killed earlier
+				}
 			}
 		}
 		c.mu.Lock()
@@ -1180,7 +1363,8 @@ func crPanicClass(p string) string {
 
 type crImg struct {
 	ops    [][]crOp  // durable database writes, in order
-	wal    []byte    // durable WAL file (nil: no file)
+	wal    []byte    // durable WAL, all files of the group concatenated (nil: no file)
+	rots   []int     // offsets at which the WAL is cut into rotated files (the rest is the head)
 	pub    []crActed // own messages that may have been published before the crash
 	desc   string    // "after durable write #k = ..."
 	window string    // after:<kind>/before:<kind>
@@ -1188,6 +1372,18 @@ type crImg struct {
 	nrecs  int       // complete WAL records the recorder believes the image holds (-1: unknown)
 	w1     string    // second-crash images: window of the first crash
 	w2     string    // second-crash images: window of the second crash (within the recovering life)
+}
+
+// headState: single (never rotated) | present (rotated files and a head) | rotated-away (the group
+// has no head: the process died after a rotation and before the next flush)
+func (im *crImg) headState() string {
+	switch {
+	case len(im.rots) == 0:
+		return "single"
+	case im.rots[len(im.rots)-1] == len(im.wal):
+		return "rotated-away"
+	}
+	return "present"
 }
 
 func (im *crImg) db() *memorydb.Database {
@@ -1233,10 +1429,14 @@ func crCut(base *crImg, l *crLife, j int, tail string) *crImg {
 	im := &crImg{tail: tail}
 	im.ops = append(im.ops, base.ops...)
 	im.pub = append(im.pub, base.pub...)
+	im.rots = append(im.rots, base.rots...)
 	walLen, walBuf := len(base.wal), len(base.wal)
 	for i := 0; i < j; i++ {
 		if !l.log[i].wal {
 			im.ops = append(im.ops, l.log[i].ops)
+		}
+		if l.log[i].rot {
+			im.rots = append(im.rots, l.log[i].walLen)
 		}
 		walLen, walBuf = l.log[i].walLen, l.log[i].walBuf
 	}
@@ -1288,15 +1488,24 @@ func crCut(base *crImg, l *crLife, j int, tail string) *crImg {
 			im.pub = append(im.pub, a)
 		}
 	}
+	// the window is named after the neighbouring writes of the commit pipeline; a rotation of the
+	// WAL head in between is an orthogonal dimension (im.rots, reported as wal-head=...)
 	after, before := "start", "end"
-	if j > 0 {
-		after = crKindShort(l.log[j-1])
+	ja, jb := j, j
+	for ja > 0 && l.log[ja-1].rot {
+		ja--
 	}
-	if j < len(l.log) {
-		before = crKindShort(l.log[j])
-	} else if j > 0 {
+	for jb < len(l.log) && l.log[jb].rot {
+		jb++
+	}
+	if ja > 0 {
+		after = crKindShort(l.log[ja-1])
+	}
+	if jb < len(l.log) {
+		before = crKindShort(l.log[jb])
+	} else if ja > 0 {
 		// the life was stopped inside a commit pipeline: name the write that would have come next
-		last := l.log[j-1]
+		last := l.log[ja-1]
 		switch {
 		case last.wal && strings.HasPrefix(last.kind, "wal:eh:") && last.height > 0:
 			before = fmt.Sprintf("binfo(%d)", last.height)
@@ -1306,8 +1515,8 @@ func crCut(base *crImg, l *crLife, j int, tail string) *crImg {
 			before = fmt.Sprintf("head(%d)", last.height)
 		case last.kind == "head":
 			before = fmt.Sprintf("cstate(%d)", last.height)
-		case last.kind == "trie" && j > 1 && l.log[j-2].kind == "binfo":
-			before = fmt.Sprintf("head(%d)", l.log[j-2].height)
+		case last.kind == "trie" && ja > 1 && l.log[ja-2].kind == "binfo":
+			before = fmt.Sprintf("head(%d)", l.log[ja-2].height)
 		}
 	}
 	im.window = "after:" + after + "/before:" + before
@@ -1403,17 +1612,19 @@ type crRun struct {
 	panicCls string
 	post     *crFacts
 	finalHH  int64
+	raced    bool // a step timeout was handled while own messages were still queued: the machine was too slow for this run
 	walCheck bool // the replay class the code reported agrees with the #ENDHEIGHT markers of the image file
+	walExpect string // the class those markers call for
 }
 
-func crRestart(env *crEnv, img *crImg, wall time.Duration) *crRun {
+func crRestart(env *crEnv, img *crImg, settle, wall time.Duration) *crRun {
 	crLogs.take()
 	r := &crRun{img: img, hc0: -1, hh0: -1, finalHH: -1}
 	mem := img.db()
 	r.pre = crReadFacts(mem)
 	r.rec = crNewRec()
 	t0 := time.Now()
-	nd := crStartNode(env, mem, img.wal, r.rec)
+	nd := crStartNode(env, mem, img.wal, img.rots, r.rec)
 	t1 := time.Now()
 	r.nd = nd
 	r.stage = nd.stage
@@ -1432,7 +1643,7 @@ func crRestart(env *crEnv, img *crImg, wall time.Duration) *crRun {
 		r.end = "notstarted"
 	} else {
 		r.started = true
-		r.end = nd.runUntil(r.start+1, 2, wall)
+		r.end = nd.runUntil(r.start+1, 2, settle, wall)
 	}
 	if nd.cs != nil {
 		crGuard(func() { r.endH, r.endR, _ = nd.hrs() })
@@ -1440,6 +1651,9 @@ func crRestart(env *crEnv, img *crImg, wall time.Duration) *crRun {
 	t2 := time.Now()
 	nd.kill()
 	t3 := time.Now()
+	if nd.wal != nil && atomic.LoadInt32(&nd.wal.raced) != 0 {
+		r.raced = true
+	}
 	r.logs = append(append([]string{}, nd.startLogs...), crLogs.take()...)
 	r.life = crLifeOf(r.rec, nd.walBytes())
 	// replay outcome as the code reported it
@@ -1461,34 +1675,53 @@ func crRestart(env *crEnv, img *crImg, wall time.Duration) *crRun {
 			r.replay = "aborted"
 		}
 	}
-	// cross-check of the reported class against the image file itself
-	if r.replay == "eh-present" || r.replay == "replayed" {
-		has := false
+	// direct check of the reported class against the #ENDHEIGHT markers the image's WAL holds, whatever
+	// files of the group they are in (decoded here from the logical record stream, independent of
+	// SearchForEndHeight): marker of the start height => "eh-present"; else marker of the previous
+	// height (0 for the initial height; BaseWAL.OnStart puts one into an empty head) => replayed; else
+	// "no-marker"
+	r.walExpect = ""
+	if r.replay == "eh-present" || r.replay == "replayed" || r.replay == "no-marker" {
+		hasStart, hasPrev := false, false
+		prev := int64(r.start) - 1
+		if r.start <= 1 {
+			prev = 0
+		}
+		headEmpty := len(img.wal) == 0 || (len(img.rots) > 0 && img.rots[len(img.rots)-1] == len(img.wal))
+		if prev == 0 && headEmpty {
+			hasPrev = true
+		}
 		dec := NewWALDecoder(bytes.NewReader(img.wal))
 		for {
 			m, err := dec.Decode()
 			if err != nil {
 				break
 			}
-			if e, ok := m.Msg.(EndHeightMessage); ok && e.Height == int64(r.start) {
-				has = true
+			if e, ok := m.Msg.(EndHeightMessage); ok {
+				if e.Height == int64(r.start) {
+					hasStart = true
+				}
+				if e.Height == prev {
+					hasPrev = true
+				}
 			}
 		}
-		r.walCheck = has == (r.replay == "eh-present")
-		if os.Getenv("C05_DBG") != "" && img.tail != "synced" && r.replay == "eh-present" && !strings.Contains(img.window, "before:end") && !strings.HasPrefix(img.window, "2nd") && r.hh0 == r.pre.hh {
-			fmt.Printf("DBG2 %s tail=%s len=%d\n", img.window, img.tail, len(img.wal))
-			dec := NewWALDecoder(bytes.NewReader(img.wal))
-			for {
-				m, err := dec.Decode()
-				if err != nil {
-					fmt.Println("  decode end:", err)
-					break
-				}
-				fmt.Printf("  %s\n", crWalMsgTok(m.Msg))
-			}
+		switch {
+		case hasStart:
+			r.walExpect = "eh-present"
+		case hasPrev:
+			r.walExpect = "replayed"
+		default:
+			r.walExpect = "no-marker"
+		}
+		r.walCheck = r.walExpect == r.replay
+		if _, rep := crFind(r.logs, "wal-repaired"); rep || img.tail == "torn" {
+			// a torn tail: the first replay pass may have run through a commit before the damage was met;
+			// the class then belongs to the next height (see F7 in the report)
+			r.walCheck = true
 		}
 		if !r.walCheck && os.Getenv("C05_DBG") != "" {
-			fmt.Printf("DBG replay class %s but image WAL has #ENDHEIGHT %d = %v (%d bytes) tail=%s window=%s logs=%v\n", r.replay, r.start, has, len(img.wal), img.tail, img.window, nd.startLogs)
+			fmt.Printf("DBG replay class %s but the image WAL (%d bytes, cuts %v) says %s for start %d tail=%s window=%s logs=%v\n", r.replay, len(img.wal), img.rots, r.walExpect, r.start, img.tail, img.window, nd.startLogs)
 		}
 	} else {
 		r.walCheck = true
@@ -1517,26 +1750,40 @@ func crRestart(env *crEnv, img *crImg, wall time.Duration) *crRun {
 	return r
 }
 
-// runUntil lets the started node run until its consensus height reaches h, it exceeds maxRound at
-// one height, its receive routine dies, or the wall-clock bound passes.
-func (nd *crNode) runUntil(h uint64, maxRound uint32, wall time.Duration) string {
+// runUntil lets the started node run until its consensus height reaches h ("committed"), it exceeds
+// maxRound at one height ("stuck"), its receive routine dies ("dead"), it HANGS ("wall": for the
+// whole settle period nothing was queued, nothing was being handled, no timeout was waiting in the
+// relay, and height/round/step, the durable-write log, the WAL records, the signatures and the
+// number of scheduled timeouts did not change - no real-time wait of the node is involved, every
+// timeout is logical), or the wall-clock bound passes while the node is NOT hung ("slow": the
+// machine, never reported).
+func (nd *crNode) runUntil(h uint64, maxRound uint32, settle, wall time.Duration) string {
 	deadline := time.After(wall)
 	tick := time.NewTicker(time.Millisecond)
 	defer tick.Stop()
+	last, since := "", time.Now()
 	for {
 		if nd.dead() {
 			return "dead"
 		}
-		ch, cr, _ := nd.hrs()
+		ch, cr, st := nd.hrs()
 		if ch >= h {
 			return "committed"
 		}
 		if cr > maxRound {
 			return "stuck"
 		}
+		nd.rec.mu.Lock()
+		snap := fmt.Sprintf("%d/%d/%d %d %d %d %d", ch, cr, st, len(nd.rec.log), len(nd.rec.recs), len(nd.rec.sigs), atomic.LoadInt64(&nd.tk.nsched))
+		nd.rec.mu.Unlock()
+		if snap != last || atomic.LoadInt32(&nd.tk.held) != 0 || !nd.tk.quiescent() {
+			last, since = snap, time.Now()
+		} else if time.Since(since) > settle {
+			return "wall"
+		}
 		select {
 		case <-deadline:
-			return "wall"
+			return "slow"
 		case <-nd.rec.notify:
 		case <-tick.C:
 		}
@@ -1611,6 +1858,7 @@ type crCase struct {
 	facts0   *crFacts // final facts of the first life (the twin)
 	appFixed bool     // a genesis state reloaded at height 0 equals MakeGenesisState's (app hash)
 	thorough bool
+	stuckConfirmed int // restarted nodes of this case that made no progress within 8 s, 45 s and 120 s
 }
 
 func crB(b bool) int {
@@ -1728,6 +1976,11 @@ func (c *crCase) cause(r *crRun) string {
 		return "replay-resign"
 	case r.replay == "no-marker":
 		return "wal-marker-missing"
+	case r.replay == "replayed" && r.start == 1 && len(r.img.rots) > 0 && r.img.rots[len(r.img.rots)-1] == len(r.img.wal) && len(r.img.pub) > 0:
+		// the WAL head was rotated away in the initial height and not written again before the crash:
+		// BaseWAL.OnStart put a fresh #ENDHEIGHT 0 into the new head, the search for marker 0 (newest file
+		// first) stopped there and nothing of height 1 was replayed although own messages were published
+		return "initial-height-marker-shadowed"
 	case r.replay == "replayed":
 		return "replay-resign"
 	}
@@ -1771,7 +2024,7 @@ func (c *crCase) oracles(r *crRun, rels []crSigRel, twin *crFacts, inherited str
 		}
 	}
 	ctx := fmt.Sprintf("cause=%s mode=%s window=%s tail=%s second-crash=%d", cause, mode, win, img.tail, second)
-	at := " crash-point=\"" + img.desc + "\""
+	at := fmt.Sprintf(" wal-files=%d wal-head=%s crash-point=\"%s\"", len(img.rots)+1, img.headState(), img.desc)
 	fail := func(class, more string) {
 		c.o.Fail(c.opNo, class, fmt.Sprintf("%s %s%s", ctx, more, at))
 		c.o.Count("oracle:" + class + ":" + cause)
@@ -1817,6 +2070,14 @@ func (c *crCase) oracles(r *crRun, rels []crSigRel, twin *crFacts, inherited str
 				kind = "proposal"
 				if r.replay == "replayed" || (r.repaired && r.replay == "no-marker") {
 					published = "replayed-original-wins"
+					// ... unless the node went on to prevote the NEW block in that round: then the new
+					// proposal is the one it holds (nothing was replayed before it)
+					for _, y := range rels {
+						if !y.sig.proposal && y.sig.typ == int(kproto.PrevoteType) && y.sig.height == x.sig.height && y.sig.round == x.sig.round &&
+							crBidKey(y.sig.bid) == crBidKey(x.sig.bid) {
+							published = "published-again"
+						}
+					}
 				}
 			}
 			fail("double-sign", fmt.Sprintf("what=%s key=%s %s start-height=%d replay=%s", kind, x.key, published, r.start, r.replay))
@@ -1889,19 +2150,62 @@ func (c *crCase) step(in string, img *crImg, withRel bool, inherited string) (*c
 			return nil, ""
 		}
 	}
-	r := crRestart(c.env, img, 8*time.Second)
-	if !r.walCheck {
-		// the class is taken from the node's log; on disagreement with the file run the restart once more
-		c.o.Count("harness:restart-repeated")
-		r = crRestart(c.env, img, 8*time.Second)
-		if !r.walCheck {
-			c.o.Fail(c.opNo, "replay-class-vs-wal", fmt.Sprintf("cause=harness reported=%s window=%s tail=%s", r.replay, img.window, img.tail))
+	// No outcome depends on how fast the machine is: the node's timeouts are logical (crTicker), and
+	// the outcomes decided by waiting are re-probed before they are believed:
+	//  - "wall" (the node hangs: quiescent and unchanged for 3 s) is confirmed by a second run that
+	//    must stay quiescent and unchanged for 15 s before it is reported;
+	//  - "slow" (the wall-clock bound passed while the node was still working) is never reported:
+	//    the run is repeated with a ten times longer bound, and the op is dropped if that is not enough;
+	//  - a step timeout handled while own messages were queued (cannot happen with the logical
+	//    ticker; kept as a tripwire): the run is discarded and repeated, never reported;
+	//  - a replay class that disagrees with the WAL of the image is checked on a second run.
+	var r *crRun
+	settle, wall := 3*time.Second, 60*time.Second
+	races, walls, slows, rechecks := 0, 0, 0, 0
+	for {
+		r = crRestart(c.env, img, settle, wall)
+		if r.raced {
+			c.o.Count("harness:step-timeout-raced-run-repeated")
+			if races++; races > 2 {
+				c.o.Count("harness:timing-unstable-op-skipped")
+				return nil, ""
+			}
+			continue
 		}
+		if r.end == "slow" {
+			c.o.Count("harness:slow-run-repeated")
+			if slows++; slows > 1 {
+				c.o.Count("harness:timing-unstable-op-skipped")
+				return nil, ""
+			}
+			wall = 600 * time.Second
+			continue
+		}
+		if r.end == "wall" && walls == 0 {
+			if c.stuckConfirmed >= 3 {
+				// three nodes of this case were confirmed hung (and reported) already
+				c.o.Count("harness:hung-op-skipped-after-three-confirmed")
+				return nil, ""
+			}
+			c.o.Count("harness:hung-run-confirmed-by-second-run")
+			walls++
+			settle = 15 * time.Second
+			continue
+		}
+		if !r.walCheck && rechecks == 0 {
+			c.o.Count("harness:restart-repeated")
+			rechecks++
+			continue
+		}
+		break
 	}
 	if r.end == "wall" {
-		// the wall-clock bound is a harness limit (machine load): once more with a generous bound
-		c.o.Count("harness:wall-bound-repeated")
-		r = crRestart(c.env, img, 20*time.Second)
+		c.stuckConfirmed++
+	}
+	if !r.walCheck {
+		// the WAL of the image holds the marker (or not) and catchupReplay said otherwise
+		c.o.Fail(c.opNo, "replay-class-vs-wal", fmt.Sprintf("cause=wal-marker-search reported=%s wal-holds=%s start-height=%d wal-files=%d window=%s tail=%s crash-point=\"%s\"", r.replay, r.walExpect, r.start, len(img.rots)+1, img.window, img.tail, img.desc))
+		c.o.Count("oracle:replay-class-vs-wal")
 	}
 	all := crRelate(img.pub, r.life.sigs)
 	c.oracles(r, all, c.facts0, inherited)
@@ -1914,7 +2218,10 @@ func (c *crCase) step(in string, img *crImg, withRel bool, inherited string) (*c
 	cause := c.cause(r)
 	c.o.Count("cause:" + cause)
 	w := strings.NewReplacer("0", "", "1", "", "2", "", "3", "", "4", "", "5", "", "6", "", "7", "", "8", "", "9", "").Replace(img.window)
-	c.o.Mark(fmt.Sprintf("%v|%s|%s|%s|%s|%s", c.env.sc.archive, w, img.tail, r.end, r.replay, cause))
+	c.o.Mark(fmt.Sprintf("%v|%s|%s|%s|%s|%s|%s", c.env.sc.archive, w, img.tail, r.end, r.replay, cause, img.headState()))
+	if len(img.rots) > 0 {
+		c.o.Count("wal-head:" + img.headState())
+	}
 	c.opNo++
 	if os.Getenv("C05_DUMP") != "" {
 		fmt.Printf("%-14s %-50s %s\n", in, img.window, obs)
@@ -1933,6 +2240,26 @@ func crNRecs(l *crLife, n int) int {
 	return c
 }
 
+// crCuts: the rotation offsets of an image as record counts (a cut after that many records of the
+// image's record list: n0 records of the base life, then the records of the recovering life)
+func crCuts(img *crImg, l0 *crLife, n0 int, l1 *crLife) string {
+	if len(img.rots) == 0 {
+		return "-"
+	}
+	var c []string
+	for _, off := range img.rots {
+		n := crNRecs(l0, off)
+		if n > n0 {
+			n = n0
+		}
+		if l1 != nil {
+			n += crNRecs(l1, off)
+		}
+		c = append(c, fmt.Sprint(n))
+	}
+	return strings.Join(c, ",")
+}
+
 // crLifeLines: a life for the model: its WAL records and its durable writes
 func crLifeLines(o *crOut, id int, parent string, l *crLife, baseRecs int) {
 	var ks []string
@@ -1947,7 +2274,9 @@ func crLifeLines(o *crOut, id int, parent string, l *crLife, baseRecs int) {
 	o.InOnly(fmt.Sprintf("LIFE %d %s %d %d", id, parent, len(l.log), len(l.recs)))
 	o.InOnly("RECS " + strings.Join(ks, " "))
 	for _, w := range l.log {
-		if w.wal {
+		if w.rot {
+			o.InOnly(fmt.Sprintf("W rot %d", crNRecs(l, w.walLen)))
+		} else if w.wal {
 			o.InOnly(fmt.Sprintf("W wal %d", crNRecs(l, w.walLen)))
 		} else {
 			o.InOnly(fmt.Sprintf("W db %s %d %d", w.kind, w.height, w.aux))
@@ -1973,6 +2302,21 @@ func crRunCase(o *crOut, idx int, r *crRand, tier string) {
 			sc.txAt[h] = r.Intn(3)
 		}
 	}
+	if idx%8 >= 6 {
+		// WAL rotation family: a small head size limit, checked (as the group's ticker would) between any
+		// two WAL writes.  Crash points right after a rotation leave a group WITHOUT head: the restart
+		// writes #ENDHEIGHT 0 into a new head and must find the real markers in the rotated files.
+		sc.archive = idx%16 != 15 // flush-every-block, where a restart resumes at the crash height
+		sc.snapshot = false
+		if idx%8 == 6 {
+			sc.rotLimit = 1 // every fsync is followed by a rotation: each file holds one fsynced record
+		} else {
+			sc.rotLimit = int64(700 + r.Intn(5000)) // a file holds the records of part of a height up to several heights
+			if tier != "thorough" || idx < 12 {
+				sc.txAt = map[uint64]int{2: 1, 3: 2}
+			}
+		}
+	}
 	env := crNewEnv(sc)
 	crArchiveMode = sc.archive
 	c := &crCase{o: o, r: r, env: env, thorough: tier == "thorough"}
@@ -1992,9 +2336,13 @@ func crRunCase(o *crOut, idx int, r *crRand, tier string) {
 	// ---- first life
 	crLogs.take()
 	rec := crNewRec()
-	nd := crStartNode(env, memorydb.New(), nil, rec)
+	// the first life runs height by height: the transactions of height h are pending in the pool
+	// before the node enters height h (no race between the pool and the proposer)
+	env.gated = true
+	nd := crStartNode(env, memorydb.New(), nil, nil, rec)
+	env.gated = false
 	if nd.failed != "" {
-		o.Case(idx, fmt.Sprintf("CASE %d %d %d %d %d", idx, crB(sc.archive), crB(sc.snapshot), sc.heights, crB(c.appFixed)))
+		o.Case(idx, fmt.Sprintf("CASE %d %d %d %d %d %d", idx, crB(sc.archive), crB(sc.snapshot), sc.heights, crB(c.appFixed), sc.rotLimit))
 		o.Fail(0, "first-start-fails", fmt.Sprintf("cause=stage-%s-%s %s", nd.stage, crPanicClass(nd.failed), strings.Split(nd.failed, "\n")[0]))
 		nd.kill()
 		return
@@ -2002,6 +2350,7 @@ func crRunCase(o *crOut, idx int, r *crRand, tier string) {
 	nonce := [2]uint64{}
 	stopped := ""
 	for h := uint64(1); h <= uint64(sc.heights); h++ {
+		mined := nonce
 		for i := 0; i < sc.txAt[h]; i++ {
 			u := i % 2
 			if err := nd.txPool.AddLocal(env.makeTx(u, nonce[u])); err != nil {
@@ -2009,7 +2358,26 @@ func crRunCase(o *crOut, idx int, r *crRand, tier string) {
 			}
 			nonce[u]++
 		}
-		if e := nd.runUntil(h+1, 2, 10*time.Second); e != "committed" {
+		// the pool drops mined transactions and promotes new ones asynchronously: wait for the event
+		// (pending = exactly the transactions of this height), not for a duration
+		for t0 := time.Now(); time.Since(t0) < 120*time.Second; time.Sleep(200 * time.Microsecond) {
+			okp := true
+			for u := range nonce {
+				pend, _ := nd.txPool.ContentFrom(env.userKey[u].GetAddress())
+				if uint64(len(pend)) != nonce[u]-mined[u] || (len(pend) > 0 && pend[0].Nonce() != mined[u]) {
+					okp = false
+				}
+			}
+			if okp {
+				break
+			}
+		}
+		nd.tk.release(h)
+		e := nd.runUntil(h+1, 2, 5*time.Second, 600*time.Second)
+		if e == "wall" {
+			e = nd.runUntil(h+1, 2, 20*time.Second, 600*time.Second) // hung: confirmed over a longer period before it is reported
+		}
+		if e != "committed" {
 			logs := crLogs.take()
 			pc := "-"
 			if x, ok := crFind(logs, "consensus-failure"); ok {
@@ -2020,14 +2388,34 @@ func crRunCase(o *crOut, idx int, r *crRand, tier string) {
 		}
 	}
 	if stopped == "" {
-		time.Sleep(15 * time.Millisecond) // into the first messages of the next height
+		// into the first messages of the next height: until the node has signed its proposal and
+		// prevote there (or hangs)
+		nd.rec.mu.Lock()
+		n0 := len(nd.rec.sigs)
+		nd.rec.mu.Unlock()
+		nd.tk.release(uint64(sc.heights) + 1)
+		for t0 := time.Now(); time.Since(t0) < 60*time.Second; {
+			nd.rec.mu.Lock()
+			n := len(nd.rec.sigs)
+			nd.rec.mu.Unlock()
+			if n >= n0+2 || nd.dead() {
+				break
+			}
+			time.Sleep(200 * time.Microsecond)
+		}
 	}
 	nd.kill()
 	c.life0 = crLifeOf(rec, nd.walBytes())
 	c.facts0 = crReadFacts(nd.db.inner)
 	l := c.life0
-	o.Case(idx, fmt.Sprintf("CASE %d %d %d %d %d", idx, crB(sc.archive), crB(sc.snapshot), sc.heights, crB(c.appFixed)))
+	o.Case(idx, fmt.Sprintf("CASE %d %d %d %d %d %d", idx, crB(sc.archive), crB(sc.snapshot), sc.heights, crB(c.appFixed), sc.rotLimit))
 	o.Count(fmt.Sprintf("mode:archive=%v,snapshot=%v", sc.archive, sc.snapshot))
+	if sc.rotLimit > 0 {
+		o.Count("wal:rotating-head")
+		if sc.rotLimit == 1 {
+			o.Count("wal:rotation-after-every-fsync")
+		}
+	}
 	if stopped != "" {
 		o.Fail(0, "first-life-stops", stopped)
 	}
@@ -2071,7 +2459,7 @@ func crRunCase(o *crOut, idx int, r *crRand, tier string) {
 	for k := 0; k <= len(l.log); k++ {
 		img := crCut(base, l, k, "synced")
 		img.nrecs = crNRecs(l, len(img.wal))
-		run, cause := c.step(fmt.Sprintf("K %d synced %d", k, img.nrecs), img, true, "")
+		run, cause := c.step(fmt.Sprintf("K %d synced %d %s", k, img.nrecs, crCuts(img, l, img.nrecs, nil)), img, true, "")
 		if run == nil {
 			continue
 		}
@@ -2082,10 +2470,10 @@ func crRunCase(o *crOut, idx int, r *crRand, tier string) {
 		// the same crash point with the unsynced WAL tail surviving / torn
 		if b := crCut(base, l, k, "buffered"); len(b.wal) != len(img.wal) {
 			b.nrecs = crNRecs(l, len(b.wal))
-			c.step(fmt.Sprintf("K %d buffered %d", k, b.nrecs), b, true, "")
+			c.step(fmt.Sprintf("K %d buffered %d %s", k, b.nrecs, crCuts(b, l, b.nrecs, nil)), b, true, "")
 			if t := crCut(base, l, k, "torn"); t.tail == "torn" {
 				t.nrecs = crNRecs(l, len(t.wal))
-				c.step(fmt.Sprintf("K %d torn %d", k, t.nrecs), t, true, "")
+				c.step(fmt.Sprintf("K %d torn %d %s", k, t.nrecs, crCuts(t, l, t.nrecs, nil)), t, true, "")
 			}
 		}
 	}
@@ -2122,7 +2510,8 @@ func crRunCase(o *crOut, idx int, r *crRand, tier string) {
 			img2.window = "2nd:" + p.img.window + "+" + img2.window
 			img2.desc = p.img.desc + "; restarted; second crash " + img2.desc
 			img2.nrecs = crNRecs(l, len(p.img.wal)) + crNRecs(l1, len(img2.wal))
-			c.step(fmt.Sprintf("X %d %d %d synced %d %d", n+1, p.k, j, crNRecs(l, len(p.img.wal)), crNRecs(l1, len(img2.wal))), img2, false, inh)
+			n0 := crNRecs(l, len(p.img.wal))
+			c.step(fmt.Sprintf("X %d %d %d synced %d %d %s", n+1, p.k, j, n0, crNRecs(l1, len(img2.wal)), crCuts(img2, l, n0, l1)), img2, false, inh)
 		}
 	}
 }
